@@ -18,6 +18,9 @@ import (
 	"time"
 )
 
+// SettleClass is the seam class of Sim.Settle.
+const SettleClass = "settle"
+
 // ErrInjected is the root of every injected failure.
 var ErrInjected = errors.New("sim: injected fault")
 
@@ -100,6 +103,7 @@ type Sim struct {
 	tids     map[uint64]int
 	active   bool
 
+	released map[int]int // tid -> number of seam calls released so far
 	tasks   int // live client tasks
 	fidx    int // faultable calls released so far
 	step    int
@@ -118,6 +122,9 @@ type Sim struct {
 	OnStep func(s *Sim)
 	// OnRelease is told about each released seam call.
 	OnRelease func(ev TraceEvent)
+	// FaultFilter, when set, can exempt seam calls from fault injection (and from the
+	// faultable-call numbering), e.g. calls outside the scope a property quantifies over.
+	FaultFilter func(class, label string) bool
 	// Abort, when set non-nil by an oracle, stops the run.
 	Abort error
 
@@ -136,6 +143,7 @@ func New(seed uint64, plan Plan) *Sim {
 		Start:   time.Now(),
 		arrive:  make(chan struct{}, 1),
 		tids:    map[uint64]int{},
+		released: map[int]int{},
 		prio:    map[int]float64{},
 		pctCP:   map[int]bool{},
 		lastTid: -1,
@@ -252,6 +260,9 @@ func (s *Sim) Seam(inst *Instance, class, label string, faultable bool) error {
 		s.tids[gid] = tid
 	}
 	s.seq++
+	if faultable && s.FaultFilter != nil && !s.FaultFilter(class, label) {
+		faultable = false
+	}
 	p := &park{seq: s.seq, tid: tid, class: class, label: label, inst: inst, fault: faultable && !s.faultOff, release: make(chan error)}
 	s.parked = append(s.parked, p)
 	if len(s.parked) > s.Stats.MaxParked {
@@ -260,6 +271,33 @@ func (s *Sim) Seam(inst *Instance, class, label string, faultable bool) error {
 	s.mu.Unlock()
 	s.signal()
 	return <-p.release
+}
+
+// ReleasedOfCaller returns the calling goroutine's task id and how many of its seam
+// calls have been released so far.
+func (s *Sim) ReleasedOfCaller() (tid, n int) {
+	gid := Goid()
+	s.mu.Lock()
+	defer s.mu.Unlock()
+	tid, ok := s.tids[gid]
+	if !ok {
+		return -1, 0
+	}
+	return tid, s.released[tid]
+}
+
+// ReleasedOf returns how many seam calls of task tid have been released so far.
+func (s *Sim) ReleasedOf(tid int) int {
+	s.mu.Lock()
+	defer s.mu.Unlock()
+	return s.released[tid]
+}
+
+// Settle blocks the caller until every other goroutine is blocked and nothing else
+// is parked at a seam, i.e. background work started by earlier operations has run dry
+// (goroutines sleeping on timers do not count).
+func (s *Sim) Settle() {
+	_ = s.Seam(nil, SettleClass, "settle", false)
 }
 
 // Stop deactivates the seams: every later Seam call passes through (used for teardown).
@@ -350,6 +388,19 @@ func (s *Sim) Run(done func() bool, idleLimit time.Duration) {
 		tasks := s.tasks
 		s.mu.Unlock()
 		sort.Slice(cand, func(i, j int) bool { return cand[i].seq < cand[j].seq })
+		// "settle" parkers (a client waiting for background work to finish) only run
+		// when nothing else can: drop them while other candidates exist
+		{
+			other := cand[:0:0]
+			for _, p := range cand {
+				if p.class != SettleClass {
+					other = append(other, p)
+				}
+			}
+			if len(other) > 0 {
+				cand = other
+			}
+		}
 
 		if len(cand) == 0 {
 			if tasks == 0 && nextThaw.IsZero() && (done == nil || done()) {
@@ -439,6 +490,9 @@ func (s *Sim) Run(done func() bool, idleLimit time.Duration) {
 		}
 		s.mu.Unlock()
 		s.lastTid = p.tid
+		s.mu.Lock()
+		s.released[p.tid]++
+		s.mu.Unlock()
 		p.release <- err
 	}
 }
